@@ -9,6 +9,9 @@
            i == (looped-back o while enabled, else port.i) ^ mask, per bit of the composed port.
  ffbuffer  FFBuffer: the same with exactly one register stage in each direction (one-edge lemma from
            arbitrary state).
+ real-port Buffer on SingleEndedPort / DifferentialPort over real IOPorts, at netlist level and at RTLIL level, for ALL o, oe
+           and pad values: the pad is driven with o ^ mask under oe (negative pad: complement), i == (driven value while
+           enabled, else pad) ^ mask.
  io-use    a port bit is used by at most one buffer: second use raises DriverConflict (closed obligations
            on the real build_netlist); legal disjoint uses are accepted.
 """
@@ -31,8 +34,8 @@ META = {
     ],
     "assumptions": [
         "widths <= 3 (quick) / 4 (thorough), all inversion masks, all legal direction pairs",
-        "netlist-level inversion placement for real I/O ports is checked through C04's netlist evaluator "
-        "(not in this check); here only the single-use rule is decided for real ports",
+        "real ports: Buffer at the top level only, netlist and RTLIL evaluated under spec/nir_eval.py / spec/rtlil_eval.py with the pad's "
+        "external value symbolic; FFBuffer / DDRBuffer on real ports need a platform and are not covered",
     ],
     "bounds": {"quick": {"W": 2}, "thorough": {"W": 3}},
     "explanation": "port algebra (exhaustive finite enumeration) + buffer process contracts",
@@ -47,7 +50,9 @@ def functions():
           "SimulationPort.__add__", "SimulationPort.__invert__", "SimulationPort.__len__", "Buffer.__init__",
           "Buffer.elaborate", "FFBuffer.__init__", "FFBuffer.elaborate"]
     return [source.describe(f, q, arith="closed / adaptive bit-vector", bound="widths enumerated") for q in qs] + \
-        [source.describe("amaranth/hdl/_ir.py", "NetlistEmitter.emit_io_use", arith="closed", bound="configurations enumerated")]
+        [source.describe("amaranth/hdl/_ir.py", "NetlistEmitter.emit_io_use", arith="closed", bound="configurations enumerated"),
+         source.describe("amaranth/hdl/_ir.py", "NetlistEmitter.emit_iobuffer", arith="netlist evaluated symbolically", bound="widths enumerated"),
+         source.describe("amaranth/back/rtlil.py", "ModuleEmitter.emit_io_buffer", arith="RTLIL evaluated symbolically", bound="widths enumerated")]
 
 
 def tasks(tier):
@@ -60,11 +65,16 @@ def tasks(tier):
                 ts.append(("buffer", w, inv, pdir, bdir, True))
     ts += [("expr", k) for k in range(len(EXPRS))]
     ts += [("io-use",)]
+    for kind in ("single", "diff"):
+        for w in range(1, W + 1):
+            for inv in range(1 << w):
+                for bdir in ("i", "o", "io"):
+                    ts.append(("real-port", kind, w, inv, bdir))
     return ts
 
 
 def canaries(tier):
-    return [("canary-buffer",)]
+    return [("canary-buffer",), ("canary-real-port",)]
 
 
 # ------------------------------------------------------------------------------------------------
@@ -358,6 +368,95 @@ def check_io_use():
     return {"task": "io-use", "paths": 0, "solver_s": 0.0, "obligations": obs}
 
 
+def check_real_port(kind, w, inv, bdir, broken=False):
+    """Buffer on a REAL port (SingleEndedPort / DifferentialPort over IOPorts), at netlist level (`build_netlist`, cell
+    semantics of spec/nir_eval.py with the pad's external value symbolic) and at RTLIL level (`rtlil.convert`, $tribuf /
+    connect under spec/rtlil_eval.py): for ALL o, oe and pad values, the pad is driven with o ^ mask under oe (the
+    negative pad of a differential pair with the complement), and i == (driven value while enabled, else pad) ^ mask."""
+    from amaranth.hdl import IOPort, Fragment
+    from amaranth.hdl import _nir
+    from amaranth.hdl._ir import build_netlist
+    from amaranth.back import rtlil
+    from amaranth.lib import io
+    from harness import rtlil_parse as RP
+    from spec.nir_eval import NirEval
+    from spec.rtlil_eval import RtlilEval
+    name = f"real-port[{kind},w={w},inv={inv:#b},{bdir}]"
+    invert = [bool((inv >> k) & 1) for k in range(w)]
+
+    def build():
+        if kind == "single":
+            port = io.SingleEndedPort(IOPort(w, name="pad"), invert=invert, direction="io")
+        else:
+            port = io.DifferentialPort(IOPort(w, name="pad"), IOPort(w, name="padn"), invert=invert, direction="io")
+        buf = io.Buffer(bdir, port)
+        return buf, port
+    buf, port = build()
+    nl = build_netlist(Fragment.get(buf, None), _buf_ports(buf, bdir))
+    buf2, port2 = build()
+    mods = RP.parse(rtlil.convert(buf2, ports=_buf_ports(buf2, bdir), emit_src=False))
+    top = nl.cells[0]
+    iobs = [(i, c) for i, c in enumerate(nl.cells) if isinstance(c, _nir.IOBuffer)]
+    has_o, has_i = bdir in ("o", "io"), bdir in ("i", "io")
+
+    def body(path):
+        o = path.var("o", 0, mask(w)) if has_o else 0
+        oe = path.var("oe", 0, 1) if has_o else 0
+        pad = path.var("pad", 0, mask(w))
+        padn = path.var("padn", 0, mask(w))
+        inputs = {}
+        for nm in top.ports_i:
+            inputs[nm] = {"o": o, "oe": oe}.get(nm, 0)
+        io_in = {}
+        for idx, c in iobs:
+            pname = nl.io_ports[c.port[0].port].name if len(c.port) else "pad"
+            io_in[idx] = pad if pname == "pad" else padn
+        ev = NirEval(nl, inputs, {}, io_in)
+        driven = (o ^ inv) & mask(w)
+        want_i = (ite(oe != 0, driven, pad) ^ inv) & mask(w) if has_o else (pad ^ inv) & mask(w)
+        if broken:
+            want_i = want_i ^ 1
+        for idx, c in iobs:
+            if not len(c.port):
+                continue
+            pname = nl.io_ports[c.port[0].port].name
+            if c.dir is not _nir.IODirection.Input:
+                want_o = driven if pname == "pad" else (~driven) & mask(w)
+                path.prove(f"{name}::nir::{pname}-driven-value", to_sint(ev.value(c.o)) == to_sint(want_o))
+                path.prove(f"{name}::nir::{pname}-enable", to_sint(ev.net(c.oe)) == to_sint(oe))
+        if has_i and w:
+            path.prove(f"{name}::nir::i", to_sint(ev.value(top.ports_o["i"])) == to_sint(want_i))
+        # RTLIL
+        rin = {"pad": pad, "padn": padn}
+        if has_o:
+            rin.update({"o": o, "oe": oe})
+        rev = RtlilEval(mods, inputs=rin, state={})
+        tm = mods["\\top"]
+        for c in tm.cells.values():
+            if c.kind == "$tribuf":
+                ybits = [b for b in RP.bits_of(c.ports["\\Y"], tm)]
+                pname = ybits[0][0].lstrip("\\") if ybits else "pad"
+                want_o = driven if pname == "pad" else (~driven) & mask(w)
+                path.prove(f"{name}::rtlil::{pname}-driven-value", to_sint(rev.top.sig(c.ports["\\A"])) == to_sint(want_o))
+                path.prove(f"{name}::rtlil::{pname}-enable", to_sint(rev.top.sig(c.ports["\\EN"])) == to_sint(oe))
+        if has_o and w:
+            n_trib = sum(1 for c in tm.cells.values() if c.kind == "$tribuf")
+            path.prove(f"{name}::rtlil::one-tristate-driver-per-pad", n_trib == (1 if kind == "single" else 2))
+        if has_i and w:
+            path.prove(f"{name}::rtlil::i", to_sint(rev.out("i")) == to_sint(want_i))
+        path.prove(f"{name}::evaluated", True)
+    return runner.from_exploration(name, Exploration(name, body).run())
+
+
+def _buf_ports(buf, bdir):
+    ports = []
+    if bdir in ("i", "io"):
+        ports.append(buf.i)
+    if bdir in ("o", "io"):
+        ports += [buf.o, buf.oe]
+    return ports
+
+
 def run_task(task):
     k = task[0]
     if k == "algebra":
@@ -371,6 +470,10 @@ def run_task(task):
         return runner.merge_results(f"expr[{desc}]", parts)
     if k == "io-use":
         return check_io_use()
+    if k == "real-port":
+        return check_real_port(*task[1:])
+    if k == "canary-real-port":
+        return check_real_port("single", 2, 0b01, "io", broken=True)
     if k == "canary-buffer":
         return check_buffer(2, 0b10, "io", "io", False, break_spec=True)
     raise KeyError(k)
